@@ -211,6 +211,30 @@ def r_ptb(repo, rep):
     oks = bool(sl) and prefix is not None and src(sl[0].slice.lower) == str(len(prefix)) and src(sl[0].slice.upper) == '-1'
     rep.check(okp and oks, 'R20.6', wr, '_parse_ptb:root', 'the reader requires the prefix %r and strips exactly it and the final bracket' % prefix,
               'reader prefix test / slice do not match the writer\'s root template %r' % prefix)
+    # completeness: every container that receives opened categories must be accounted for by the final check, which
+    # sits in the handler turning failure into RuntimeError
+    tr = [n for n in pp.body if isinstance(n, ast.Try)]
+    okc = False
+    detail = 'no try block'
+    if tr:
+        opened = set()
+        for n in ast.walk(pp):
+            if isinstance(n, ast.Call) and isinstance(n.func, ast.Attribute) and n.func.attr == 'append' and isinstance(n.func.value, ast.Name) \
+                    and any(isinstance(x, ast.Call) and src(x.func) == 'Category.parse' for x in ast.walk(n)):
+                opened.add(n.func.value.id)
+        finals = [a for a in tr[0].body if isinstance(a, ast.Assert)]
+        handlers = [h for h in tr[0].handlers if h.type is not None and 'AssertionError' in src(h.type) and any(isinstance(x, ast.Raise) and 'RuntimeError' in src(x) for x in h.body)]
+        if finals and handlers and opened:
+            last = finals[-1]
+            names = {x.id for x in ast.walk(last.test) if isinstance(x, ast.Name)}
+            t_ = src(last.test).replace(' ', '')
+            one_tree = any(('len(%s)==1' % v) in t_ for v in names)
+            okc = opened <= names and one_tree
+            detail = 'opened categories are kept in %s; the final check `%s` looks at %s' % (sorted(opened), src(last.test), sorted(names & (opened | {v for v in names})))
+        else:
+            detail = 'final assertion / RuntimeError handler / category container not found'
+    rep.check(okc, 'R20.4', wr, '_parse_ptb:complete', 'an incomplete line is rejected: the final check covers the container(s) holding opened categories and requires a single result (%s)' % detail,
+              'an incomplete line can yield a partial tree: %s' % detail)
     red = rm.get('_parse_ptb.reduce')
     it = red.args.args[0].arg
     inv_ok = False
@@ -240,15 +264,6 @@ def r_ptb(repo, rep):
                     opened = True
     rep.check(opened, 'R20.6', wr, '_parse_ptb:open', 'an item starting with "(" pushes the category parsed from the text after the bracket',
               'opening items are not parsed as "(" + category')
-    # completeness
-    tr = [n for n in pp.body if isinstance(n, ast.Try)]
-    okc = False
-    if tr:
-        asserts = [src(a.test).replace(' ', '') for a in tr[0].body if isinstance(a, ast.Assert)]
-        handlers = [h for h in tr[0].handlers if h.type is not None and 'AssertionError' in src(h.type) and any(isinstance(x, ast.Raise) and 'RuntimeError' in src(x) for x in h.body)]
-        okc = any('len(stack)==1' in a and 'isinstance(stack[0],Tree)' in a for a in asserts) and bool(handlers)
-    rep.check(okc, 'R20.4', wr, '_parse_ptb:complete', 'an incomplete line is rejected: exactly one Tree must remain, else RuntimeError',
-              'the reader has no check that exactly one tree remains (a partial tree could be returned)')
     # children order: trees are popped right-to-left, so the first popped is the right child
     okord = False
     detail = ''
